@@ -151,11 +151,17 @@ def erv1_final_pass(ctx):
     ctx.rule('ERV-1', 'the final pass (expressions over aggregates) reports its error as a value',
              floor=1)
     P = ctx.P
-    F = P.one('QueryTask::push_result')
-    du = DefUse(F)
-    runs = calls_matching(F, lambda n: n.endswith('NormalFormQuery::run'))
-    ctx.require(runs, 'ERV-1: push_result does not run a final pass (anchor)')
-    for (b, t) in runs:
+    root = P.one('QueryTask::push_result')
+    # the final pass is run by push_result or by a helper of QueryTask it calls
+    scope = [P.body(n) for n in P.reachable_bodies([root])
+             if n.startswith('engine::execution::query_task::QueryTask::')]
+    sites = []
+    for F in scope:
+        for (b, t) in calls_matching(F, lambda n: n.endswith('NormalFormQuery::run')):
+            sites.append((F, b, t))
+    ctx.require(sites, 'ERV-1: neither push_result nor a QueryTask helper runs a final pass (anchor)')
+    for (F, b, t) in sites:
+        du = DefUse(F)
         use = classify_result_use(F, du, t)
         ctx.check('ERV-1', 'QueryTask::push_result|final-pass-result', use['kind'] in ('match', 'try'),
                   'result of the final pass is consumed by %s (overflow / division by zero in '
